@@ -164,6 +164,25 @@ def run_query(q):
             for r in p_.rules:
                 G.add(r.w, r.head, *r.body)
         return [enc(G(tuple(bs))) for bs in q["bss"]]
+    if op == "equiv":
+        a, b = mk_wfsa(q["a"], "field", True), mk_wfsa(q["b"], "field", True)
+        cex = a.counterexample(b)
+        out = {"eq": bool(a == b), "hash_eq": hash(a) == hash(b)}
+        if cex is None:
+            out["cex"] = None
+        else:
+            w, va, vb = cex
+            # the counterexample is a nested pair (a, (b, (...)))
+            flat = []
+            while w != ():
+                flat.append(w[0])
+                w = w[1]
+            out["cex"] = [[ord(c) - ord("a") for c in flat], float(va), float(vb)]
+        return out
+    if op == "min":
+        a = mk_wfsa(q["m"], "field", True)
+        mm_ = a.min
+        return {"dim": mm_.dim, "values": [enc(mm_(s2py(xs))) for xs in q["xs"]]}
     if op == "closure":
         from genlm.grammar.linear import WeightedGraph
 
